@@ -302,6 +302,25 @@ def rule_r3_r4(repo, run):
                 run.check(R3, "util.WrapperMixin.write_continue.part-altered:%s" % _short(um.seg(node)), ok,
                           "the text of a part is changed by `%s`; only `%s = %s.lstrip()` after a break keeps every "
                           "non-blank character" % (um.seg(node), part, part), um.loc(node))
+    # stand-alone writers (--write-helpers): a writer fed from the Fortran helper table continues with `&`, the C one with ''
+    wh = repo.module("whelpers")
+    nw = 0
+    for q, fn in sorted(wh.functions().items()):
+        mk = [a for a in ast.walk(fn) if isinstance(a, ast.Assign) and isinstance(a.value, ast.Call)
+              and (pyflow.call_name(a.value) or "").endswith("WrapperMixin")]
+        if not mk:
+            continue
+        w = mk[0].targets[0].id
+        src = str(wh.seg(fn))
+        fortran = "FHelpers" in src
+        conts = [pyflow.const_str(a.value) for a in ast.walk(fn) if isinstance(a, ast.Assign)
+                 and (pyflow.dotted(a.targets[0]) or "") == w + ".cont"]
+        nw += 1
+        run.check(R4, "whelpers.%s:cont" % q, len(conts) == 1 and (("&" in (conts[0] or "")) == fortran),
+                  "the writer of %s helpers continues a broken line with %r: a Fortran line that is wrapped without `&` is two "
+                  "statements, a C line wrapped with `&` does not compile" % ("Fortran" if fortran else "C", conts), wh.loc(fn))
+    if nw < 2:
+        raise AnalysisError("C13.R4: stand-alone helper writers not found")
     # cont attributes
     for mname, cname, want in (("wrapf", "Wrapf", " &"), ("wrapc", "Wrapc", ""), ("wrapp", "Wrapp", ""),
                                ("wrapl", "Wrapl", "")):
@@ -457,7 +476,7 @@ def rule_r7(repo, run):
     if n < 1:
         raise AnalysisError("C13.R7: the literal-line example (`@--cap->refcount;`) was not found; rule would be vacuous")
     # YAML list items start with "- ": emitted through write_lines they need the literal marker as well
-    for mn in ("main",):
+    for mn in ("main", "util", "ast", "typemap"):
         m = repo.module(mn)
         for c in ast.walk(m.tree):
             if isinstance(c, ast.Call) and isinstance(c.func, ast.Attribute) and c.func.attr == "append" and c.args:
@@ -466,7 +485,7 @@ def rule_r7(repo, run):
                     if isinstance(x, ast.Constant) and isinstance(x.value, str):
                         lead = x.value
                         break
-                if lead is not None and re.match(r"^@?- \w", lead):
+                if lead is not None and re.match(r"^@?- [\w{]", lead):
                     n += 1
                     run.check(R, "%s:%s" % (mn, lead.strip()[:30]), lead.startswith("@"),
                               "the line `%s...` starts with `- ` (a YAML list item); write_lines takes the `-` for a de-indent "
